@@ -17,8 +17,31 @@ def contract(target, **options):
     return deco
 
 
+class _Any:
+    """native stand-in for the value of an uninterpreted specification function: equal to everything
+    (a clause that only names a result by such a function says nothing natively)"""
+    def __eq__(self, other):
+        return True
+
+    def __ne__(self, other):
+        return False
+
+    __hash__ = None
+
+    def __getitem__(self, k):
+        return self
+
+    def __bool__(self):
+        return True
+
+
+ANY = _Any()
+
+
 def spec(fn=None, **options):
     if fn is None:
+        if options.get('uninterpreted'):
+            return lambda f: (lambda *a, **k: ANY)
         return lambda f: f
     return fn
 
